@@ -618,8 +618,8 @@ def OutOkC (gh : Gh) (e : EvL) (out : OutC) : Prop :=
                  heard := (upRefC cc last conf e.1 fault c1 rx1 c2 rx2 so).heard }
      | none => out = { out := .notJoined })
   | .joinC cc fault c1 rx1 c2 rx2 =>
-    OutOk gh (joinPlain cc fault c1 rx1 c2 rx2) out.out ∧
-      out.heard = (match joinRes (joinFaultC cc fault c1 rx1 c2) rx1 rx2 with | some _ => [jsOut] | none => [])
+    OutOk gh (joinPlain fault rx1 rx2) out.out ∧
+      out.heard = (match joinRes (joinFaultC fault rx1) rx1 rx2 with | some _ => [jsOut] | none => [])
 
 theorem stepC_outOkC {σ} (g : Rng σ) (m m' : MacState) (rs rs' : σ) (ev : EvC) (out : OutC) (gh : Gh)
     (hr : GhRel m gh) (hv : evOkC ev = true) (h : stepC g (m, rs) ev = .ok ((m', rs'), out)) :
